@@ -26,7 +26,7 @@ class C02(TreeCheck):
         out = []
         for i in range(n):
             prog, meta = programs.g_crash(rng)
-            out.append({"program": prog, "config": {"keep_procs": True}, "meta": meta})
+            out.append({"program": prog, "config": {"keep_procs": True, "sigchld_ignore": bool(meta.get("sigchld_ignore"))}, "meta": meta})
         return out
 
     def derive(self, base, F, rng, tier):
@@ -39,7 +39,9 @@ class C02(TreeCheck):
         # manager delayed at its detection / termination statements while a worker dies
         ds = explore.derive_D(F, base, rng, 8 if quick else 40, quals=["_ExecutorManagerThread.wait_result_broken_or_wakeup", "_ExecutorManagerThread.process_result_item",
                                                                       "_ExecutorManagerThread.terminate_broken", "_ExecutorManagerThread.kill_workers",
-                                                                      "_ExecutorManagerThread.add_call_item_to_queue", "_ExecutorManagerThread.run"], delay=0.2)
+                                                                      "_ExecutorManagerThread.add_call_item_to_queue", "_ExecutorManagerThread.run",
+                                                                      "_kill_process_tree_with_psutil", "_kill_process_tree_without_psutil", "kill_process_tree", "_posix_recursive_kill",
+                                                                      "get_exitcodes_terminated_worker"], delay=0.2)
         ks2 = explore.derive_K(F, base, rng, len(ds), n_workers=1)
         for d, k in zip(ds, ks2):
             out.append(({"rules": d[0]["rules"] + k[0]["rules"]}, {"mode": "DK", "fn": k[1]["fn"], "act": k[1]["act"], "dfn": d[1]["fn"]}))
